@@ -73,9 +73,14 @@ AlignFactor == 65536
 (*   via "np"    ir.Tensor on an ndarray: numpy writes through the file descriptor after flush() *)
 (*   via "bytes" TensorProtoTensor (model loaded from a proto): file.write(tobytes())            *)
 (*   via "ext"   ExternalTensor elsewhere: open(src,"rb"), read, file.write(chunk)               *)
-Kd(g, back, n, via) == [g |-> g, back |-> back, n |-> n, via |-> via]
+(*   inp         the initializer is ALSO listed in the inputs of its graph (an overridable default); this
+                 makes no difference to anything below: an uninitialized one is refused all the same      *)
+Kd(g, back, n, via) == [g |-> g, back |-> back, n |-> n, via |-> via, inp |-> FALSE]
+KdIn(g, back, n, via) == [g |-> g, back |-> back, n |-> n, via |-> via, inp |-> TRUE]
 K == [ uninit |-> Kd("main", "none", 0, "none"),
        subU   |-> Kd("sub",  "none", 0, "none"),
+       uninitIn |-> KdIn("main", "none", 0, "none"),
+       subUIn |-> KdIn("sub",  "none", 0, "none"),
        huge   |-> Kd("main", "mem", 1048584, "np"),
        proto  |-> Kd("main", "mem", 512, "bytes"),
        mid    |-> Kd("main", "mem", 400, "np"),
@@ -91,11 +96,11 @@ K == [ uninit |-> Kd("main", "none", 0, "none"),
        dstS   |-> Kd("main", "dest", 16, "ext") ]
 \* models are multisets: kinds are appended in this order (sizes deliberately NOT ascending, so
 \* that the size sort of the writer has something to do)
-KindOrder == <<"huge", "proto", "uninit", "mid", "big", "subU", "subB", "extB", "dstB", "edge",
+KindOrder == <<"huge", "proto", "uninit", "uninitIn", "mid", "big", "subU", "subUIn", "subB", "extB", "dstB", "edge",
                "small", "scalar", "zero", "extS", "dstS">>
 Rank(k) == CHOOSE r \in 1..Len(KindOrder) : KindOrder[r] = k
 AllKinds == {KindOrder[r] : r \in 1..Len(KindOrder)}
-SmallMenu == {"uninit", "subU", "proto", "mid", "subB", "extB", "dstB", "edge", "extS", "dstS", "huge"}
+SmallMenu == {"uninit", "subU", "uninitIn", "subUIn", "proto", "mid", "subB", "extB", "dstB", "edge", "extS", "dstS", "huge"}
 ThirdMenu == {"huge", "proto", "extB", "dstB", "extS", "dstS"}
 
 N == Len(inits)
@@ -167,7 +172,7 @@ FsFail(ev, mode) == /\ Faults /\ fault.k = 0
 Raise == failing' = TRUE /\ pc' = (IF openf = "none" THEN "restore" ELSE "closeerr")
 
 -----------------------------------------------------------------------------
-(* torch_2_5.py: the guard *)
+(* torch_2_5.py: the guard - every initializer without const_value, graph input or not *)
 Guard == /\ pc = "guard"
          /\ LET scope == IF "guard_main_graph_only" \in Deviations THEN {"main"} ELSE {"main", "sub"}
                 bad == {i \in Idx : Kind(i).back = "none" /\ Kind(i).g \in scope}
@@ -370,8 +375,8 @@ FailIffFault == (pc = "failed" <=> (Final /\ fault.k # 0)) /\ (pc = "failed" => 
 
 \* implementation model: every departure from the property is one of the named deviations
 Explained == /\ Final => \A i \in Idx : After(i) # "same" => (Kind(i).back = "dest" /\ "dest_backing_overwritten" \in Deviations)
-             /\ pc = "done" => \A i \in Idx : ~Reloads(i) => (inits[i] = "subU" /\ "guard_main_graph_only" \in Deviations)
-             /\ (Final /\ HasUninit /\ pc # "refused") => (\A i \in Idx : Kind(i).back = "none" => inits[i] = "subU") /\ "guard_main_graph_only" \in Deviations
+             /\ pc = "done" => \A i \in Idx : ~Reloads(i) => (Kind(i).back = "none" /\ Kind(i).g = "sub" /\ "guard_main_graph_only" \in Deviations)
+             /\ (Final /\ HasUninit /\ pc # "refused") => (\A i \in Idx : Kind(i).back = "none" => Kind(i).g = "sub") /\ "guard_main_graph_only" \in Deviations
 
 TypeOK == /\ pc \in {"build", "guard", "checkdest", "derive", "snapshot", "classify", "loadsmall", "materialise", "opendata",
                      "tensor", "closeerr", "swap", "serialize", "openmodel", "writemodel", "closemodel", "restore",
